@@ -60,13 +60,24 @@ def gen(rng, idx, tier):
         a, b = rng.sample(range(len(glyphs)), 2)
         glyphs[a]["components"].append({"base": glyphs[b]["name"], "t": [1, 0, 0, 1, 0, 0]})
         glyphs[b]["components"].append({"base": glyphs[a]["name"], "t": [1, 0, 0, 1, 10, 0]})
+    skip = []
+    tol_choice = rng.choice([None, None, None, 0.5, 0, 0.25])
+    if stratum == "default" and rng.random() < 0.1:
+        # non-exported glyphs: references to them are resolved into the exported glyph early
+        # (same reversal rule for mirrored references); contour ORDER may then differ from the
+        # source order (C13), so this stratum compares contour multisets
+        used = sorted({c["base"] for g in glyphs for c in g["components"]} - {".notdef"})
+        if used:
+            skip = rng.sample(used, min(len(used), rng.choice([1, 1, 2])))
+            tol_choice = rng.choice([None, 0.5])
     return {
         "stratum": stratum,
+        "skip": skip,
         "ufo": {"glyphs": glyphs, "info": {"unitsPerEm": 1000, "familyName": "T", "styleName": "R"}},
         # defcon's own change notifications recurse for ever on a cyclic component graph while the
         # font is being BUILT (before ufo2ft sees it), so cycles are only built with ufoLib2
         "lib": "ufoLib2" if stratum == "cycle" else rng.choice(["defcon", "ufoLib2"]),
-        "roundTolerance": rng.choice([None, None, None, 0.5, 0, 0.25]),
+        "roundTolerance": tol_choice,
         "cffVersion": rng.choice([1, 1, 2]),
         "optimizeCFF": rng.choice([0, 1, 2, 2]),
     }
@@ -320,6 +331,10 @@ def run(case):
                   optimizeCFF=case["optimizeCFF"])
     if case["roundTolerance"] is not None:
         kwargs["roundTolerance"] = case["roundTolerance"]
+    skip = set(case.get("skip") or [])
+    if skip:
+        kwargs["skipExportGlyphs"] = sorted(skip)
+        bump("skip_export_cases")
     try:
         otf = ufo2ft.compileOTF(font, **kwargs)
         buf = io.BytesIO()
@@ -361,6 +376,10 @@ def run(case):
     if ("CFF2" in tt) != (case["cffVersion"] == 2):
         violations.append({"mech": "wrong_cff_version", "detail": {"tables": sorted(tt.keys())}})
     for name, g in glyphs.items():
+        if name in skip:
+            if name in gs:
+                violations.append({"mech": "skipped_glyph_exported", "detail": {"glyph": name}})
+            continue
         if name not in gs:
             violations.append({"mech": "glyph_missing", "detail": {"glyph": name}})
             continue
@@ -375,6 +394,18 @@ def run(case):
                                                                           "err": str(e)}})
             continue
         npoints = sum(1 + sum(len(s) - 1 for s in segs) for _, segs in ref)
+        if skip:
+            # multiset comparison: both sides in a canonical contour order
+            if {c["base"] for c in g.get("components", [])} & skip or any(
+                    True for _ in ()):
+                bump("skip_glyphs_referencing_skipped")
+            def key(c):
+                # canonical form after the optimiser's merging of axis-parallel runs (idempotent,
+                # so both sides get the same key whenever they draw the same contour)
+                m = R.merge_axis_cyclic(R.clean_cycle(*c))
+                return R._flat(R.canon_cycle(m)) if m else []
+            ref = sorted(ref, key=lambda c: key(R.round_cycle(*c)))
+            out = sorted(out, key=key)
         ok, how, detail = compare_glyph(ref, out, tol, case["optimizeCFF"], npoints)
         bump("glyphs_checked")
         bump("how_" + how)
